@@ -71,10 +71,16 @@ type endpoint struct {
 	ctor   string
 }
 
-func caseEndpoint(t *testing.T, ep endpoint, v variant) lib.Case {
+func caseEndpoint(t *testing.T, ep endpoint, v variant) lib.Case { return caseEndpointOn(t, nil, ep, v) }
+
+// caseEndpointOn: on a fresh client (sess == nil) or as the next call of a session
+func caseEndpointOn(t *testing.T, sess *session, ep endpoint, v variant) lib.Case {
 	bodies := newBodyTable()
 	sc := &script{items: finish(append([]wireItem{}, v.items...), bodies)}
-	lc := newClient(sc, nil, false)
+	if sess != nil {
+		sess.use(sc)
+	}
+	lc := sess.plain(sc, nil, false)
 	var res interface{}
 	var err error
 	pan, pv := bubble(t, sc, func(ctx context.Context) { res, err = ep.call(lc, ctx) })
@@ -103,14 +109,18 @@ func caseEndpoint(t *testing.T, ep endpoint, v variant) lib.Case {
 		}
 	}
 	if !ok {
-		note = ep.name + ": " + note + " (response=" + v.name + ")"
+		note = ep.name + ": " + note + " (response=" + v.name + ")" + sess.after()
+	}
+	hist, htags := sess.history(), sess.tags()
+	if sess != nil {
+		sess.did(ep.name+" "+v.name, obs.Class)
 	}
 	return lib.Case{
 		Coq:    fmt.Sprintf("%s %s %s", ep.ctor, coqAttempt(att, jsonCoq), obsCoq),
-		Input:  map[string]interface{}{"method": ep.name, "response": v.name, "script": sc.items, "attempts": atts},
+		Input:  map[string]interface{}{"method": ep.name, "response": v.name, "script": sc.items, "attempts": atts, "history": hist},
 		Impl:   obs,
 		PropOK: ok, Note: note,
-		Tags: []string{"method:" + ep.name, ep.name + ":" + v.name, "result:" + obs.Class},
+		Tags: append([]string{"method:" + ep.name, ep.name + ":" + v.name, "result:" + obs.Class}, htags...),
 	}
 }
 
